@@ -296,6 +296,8 @@ func (r restServerProtocol) addProtocolRequestHeaders(meta requestMeta, headers 
 func (r restServerProtocol) extractProtocolResponseHeaders(statusCode int, headers http.Header) (responseMeta, responseEndUnmarshaller, error) {
 	contentType := headers.Get("Content-Type")
 	if statusCode/100 != 2 {
+		// the error is re-rendered for the client, so the backend's content-type must not stick
+		headers.Del("Content-Type")
 		return responseMeta{
 				end: &responseEnd{httpCode: statusCode},
 			}, func(_ Codec, buf *bytes.Buffer, end *responseEnd) {
